@@ -90,10 +90,12 @@ func vArbJob(tag string, n int, pipeline string) *PipelineJob {
 		j.Completed = true
 		st := verifTime(c)
 		j.Start = &st
-		e := verifInt64Range(tag+".end", 1, 1<<61)
-		verifAssume(e >= c)
-		en := verifTime(e)
-		j.End = &en
+		if verifBound("noend", 0) == 0 {
+			e := verifInt64Range(tag+".end", 1, 1<<61)
+			verifAssume(e >= c)
+			en := verifTime(e)
+			j.End = &en
+		}
 		j.Tasks = jobTasks{{Name: "a", Status: "done"}}
 		return j
 	}
